@@ -1,5 +1,6 @@
 import StreamzVerif.Driver.Util
 import StreamzVerif.Model.Dask
+import StreamzVerif.Model.DaskFail
 /-! Line-protocol driver for the Dask segment model (C20).
 
 Values: an integer, or a tuple written {"t":[v, …]} (harness `common.canon`).
@@ -15,6 +16,9 @@ Function catalogue (Python twins in harness/props/c20.py):
        ("md" optional: default [[0],[1],…])
   {"op":"dask","xs":…,"md":…,"locked":B,"p":[t…],"sigma":[t…],"g":[t…],"T":[[t…] per node]}
        -> {"out":…,"md":…,"held":…,"one_at_a_time":B}    (missing times are 0)
+  {"op":"fault","stages":[{"k":"map","f":"inc"|"dbl","fail":[m,r]|null} | {"k":"acc","start":s,"fail":[m,r]|null},…],"xs":[n,…]}
+       -> {"local":[v|null,…],"dask":[v|null,…]}          (Model/DaskFail.lean; naturals; a function fails when the sum of its
+                                                            arguments is r mod m; null = the emit raised)
 -/
 open Lean StreamzVerif StreamzVerif.Driver StreamzVerif.Dask
 
@@ -111,8 +115,32 @@ def timesOf (j : Json) (k : String) : Nat → Nat :=
   let l := (getNatList j k).getD []
   fun i => l.getD i 0
 
+def failSel (j : Json) : Nat → Bool :=
+  match getNatList j "fail" with
+  | some [m, r] => fun t => m != 0 && t % m == r
+  | _ => fun _ => false
+
+def faultStage (j : Json) : Option (DaskFail.Stage × Nat) := do
+  let sel := failSel j
+  match ← getStr j "k" with
+  | "map" =>
+    match ← getStr j "f" with
+    | "inc" => some (.map (fun x => if sel x then none else some (x + 1)), 0)
+    | "dbl" => some (.map (fun x => if sel x then none else some (2 * x)), 0)
+    | _ => none
+  | "acc" => some (.acc (fun s x => if sel (s + x) then none else some (s + x)), ← getNat j "start")
+  | _ => none
+
+def optsJson (l : List (Option Nat)) : Json :=
+  Json.arr (l.map (fun o => match o with | some n => toJson n | none => Json.null)).toArray
+
 def step (ks : List (Kind Val)) (j : Json) : List (Kind Val) × Json :=
   match getStr j "op" with
+  | some "fault" =>
+    match (getArr j "stages").bind (fun a => a.toList.mapM faultStage), getNatList j "xs" with
+    | some st, some xs =>
+      (ks, Json.mkObj [("local", optsJson (DaskFail.lrun st xs).2), ("dask", optsJson (DaskFail.drun (DaskFail.lift st) xs).2)])
+    | _, _ => (ks, badOp "fault")
   | some "reset" =>
     match (getArr j "seg").bind (fun a => a.toList.mapM kindOf) with
     | some ks' => (ks', Json.mkObj [("ok", true)])
